@@ -46,3 +46,21 @@ CHECKS["C05"] = _c(
     "Trusted: the reference signer/verifier (start-up self-test on the documented vectors: GET/PUT/lifecycle/list, presigned URL, chunk chain, POST policy, five V2 examples) and agreement with aws-sigv4 on base requests. Where the AWS documents leave the verdict open (repeated query names with unsorted values, unsigned x-amz-* header, literal '+', GET with body) the monitor abstains and counts.",
     "DESIGN.md 3/C05",
 )
+
+CHECKS["C06"] = _c(
+    "exploration",
+    "runtime monitoring: event trace behind S3Service::call judged against a reference presign verifier and window arithmetic on the real clock (5 s margin); URLs from a reference presigner and from aws-sdk-s3's presigner",
+    "harness (raw request driver)",
+    "Presigned URLs from two independent presigners, with the signing time placed clearly before, inside (near both ends and middle) and after the validity window and Expires from 1 s to 2^32-1, plus ~45 mutants per URL (every X-Amz-* parameter removed, duplicated, moved to a header, lower-cased, value-changed; ordinary parameters added / dropped / changed / duplicated / shadowed; method, path, host, signed header, secret) are sent through the real service; a valid in-window URL must be authenticated as the key of X-Amz-Credential, everything else refused with no hook or backend event. Held on the executions observed.",
+    "Trusted: reference presigner/verifier (AWS example vector at start-up; agreement with the SDK presigner is observed on every SDK URL because the service must accept them). Window boundaries are resolved to +-5 s against the real clock; Expires > 604800 only on the reject side.",
+    "DESIGN.md 3/C06",
+)
+
+CHECKS["C11"] = _c(
+    "exploration",
+    "runtime monitoring: event trace behind S3Service::call judged against a reference SigV2 signer/verifier (validated on the five AWS documentation examples)",
+    "harness (raw request driver)",
+    "Requests signed by a reference V2 signer - header and query authentication, path-style and virtual-hosted, sub-resources and response-* overrides, x-amz-* headers incl. repeated names, Date vs x-amz-date, Expires before/after now - and ~40 mutants each (method, path, every sub-resource added once and twice, dropped, duplicated, changed, header and date changes, signature, access key, Expires, provider secret) are sent through the real service with a host parser; verdicts from the reference on the request as sent. Held on the executions observed.",
+    "Trusted: reference V2 string-to-sign (documentation vectors at start-up). Sub-resource list = core list of the V2 document. Expiry resolved to +-5 s.",
+    "DESIGN.md 3/C11",
+)
